@@ -230,7 +230,7 @@ Definition cset (acts : list actor) (t : nat) (x : N) : Prop :=
 Definition ents_ok (root : list tver) (a : actor) : Prop :=
   match a_pc a with
   | PRootLoaded => forall t, In t (a_locks a) -> nth_error (a_entries a) t = nth_error root t
-  | PCommitIdx | PRootLocked | PAbortBefore =>
+  | PCommitIdx | PRootLocked | PCommitLoaded | PAbortBefore =>
     forall t, In t (a_locks a) ->
       exists v e, nth_error root t = Some v /\ nth_error (a_entries a) t = Some e /\
                   Rids (a_id a) (writes_of a) t v e
@@ -257,8 +257,8 @@ Proof. intros HS. inversion HS; subst; split; reflexivity. Qed.
 
 (* committed is monotone along steps; it changes exactly at the root store *)
 Lemma Step_committed s i a a' r tl rl cl nw : Step s i a a' r tl rl cl nw -> pc_ok (a_kind a) (a_pc a) = true ->
-  (committed a' = committed a /\ (a_pc a <> PRootLocked)) \/
-  (a_pc a = PRootLocked /\ committed a = false /\ committed a' = true).
+  (committed a' = committed a /\ (a_pc a <> PCommitLoaded)) \/
+  (a_pc a = PCommitLoaded /\ committed a = false /\ committed a' = true).
 Proof.
   intros HS Hok. inversion HS; subst; unfold committed, commits; step_simpl;
     match goal with Hk : a_kind a = _, Hpc : a_pc a = _ |- _ => rewrite Hpc, Hk in *; try rewrite Hk end;
@@ -322,13 +322,14 @@ Proof.
   - intros H0 t Ht. rewrite (H t Ht). auto.
   - intros H0 t Ht. rewrite (H t Ht). auto.
   - intros H0 t Ht. rewrite (H t Ht). auto.
+  - intros H0 t Ht. rewrite (H t Ht). auto.
 Qed.
 
 Lemma Step_root ntab s i a a' r tl rl cl nw : Inv ntab s -> nth_error (s_actors s) i = Some a ->
   Step s i a a' r tl rl cl nw ->
-  (a_pc a <> PRootLocked /\ r = s_root s) \/
-  (a_kind a = KRegistrar /\ a_pc a = PRegLocked /\ r = s_root s ++ [mkV [] (s_nextw s) None]) \/
-  (a_pc a = PRootLocked /\ commits a = true /\ length r = length (s_root s) /\
+  (a_pc a <> PCommitLoaded /\ r = s_root s) \/
+  (a_kind a = KRegistrar /\ a_pc a = PRegLoaded /\ r = s_root s ++ [mkV [] (s_nextw s) None]) \/
+  (a_pc a = PCommitLoaded /\ commits a = true /\ length r = length (s_root s) /\
    forall t, nth_error r t = match nth_error (s_root s) t with
                              | None => None
                              | Some c => match nth_error (a_entries a) t with
@@ -501,9 +502,9 @@ Qed.
 (* what a micro-step can do to the committed root *)
 Theorem root_step_cases ntab s i : Inv ntab s -> VInv s ->
   s_root (step s i) = s_root s \/
-  (exists a, nth_error (s_actors s) i = Some a /\ a_kind a = KRegistrar /\ a_pc a = PRegLocked /\
+  (exists a, nth_error (s_actors s) i = Some a /\ a_kind a = KRegistrar /\ a_pc a = PRegLoaded /\
              s_root (step s i) = s_root s ++ [mkV [] (s_nextw s) None]) \/
-  (exists a, nth_error (s_actors s) i = Some a /\ a_pc a = PRootLocked /\ commits a = true /\
+  (exists a, nth_error (s_actors s) i = Some a /\ a_pc a = PCommitLoaded /\ commits a = true /\
      length (s_root (step s i)) = length (s_root s) /\
      (forall t, ~ In t (a_locks a) -> nth_error (s_root (step s i)) t = nth_error (s_root s) t) /\
      (forall t v, In t (a_locks a) -> nth_error (s_root s) t = Some v ->
@@ -592,19 +593,19 @@ Qed.
 Theorem clone_is_latest ntab s i a t : Inv ntab s -> VInv s -> nth_error (s_actors s) i = Some a ->
   In t (a_locks a) ->
   (a_pc a = PRootLoaded -> nth_error (a_entries a) t = nth_error (s_root s) t) /\
-  (a_pc a = PCommitIdx \/ a_pc a = PRootLocked \/ a_pc a = PAbortBefore ->
+  (a_pc a = PCommitIdx \/ a_pc a = PRootLocked \/ a_pc a = PCommitLoaded \/ a_pc a = PAbortBefore ->
    exists v e, nth_error (s_root s) t = Some v /\ nth_error (a_entries a) t = Some e /\
                forall x, In x (tv_ids e) <-> (x = a_id a /\ In t (writes_of a)) \/ In x (tv_ids v)).
 Proof.
   intros HI HV Ha Ht. pose proof (v_ents _ HV i a Ha) as He. unfold ents_ok in He. split.
   - intros Hp. rewrite Hp in He. auto.
-  - intros [Hp|[Hp|Hp]]; rewrite Hp in He; apply (He t Ht).
+  - intros [Hp|[Hp|[Hp|Hp]]]; rewrite Hp in He; apply (He t Ht).
 Qed.
 
 (* ... hence it contains every write committed to that table so far *)
 Theorem sees_all_committed ntab s i a j b t : Inv ntab s -> VInv s ->
   nth_error (s_actors s) i = Some a -> In t (a_locks a) ->
-  a_pc a = PRootLoaded \/ a_pc a = PCommitIdx \/ a_pc a = PRootLocked \/ a_pc a = PAbortBefore ->
+  a_pc a = PRootLoaded \/ a_pc a = PCommitIdx \/ a_pc a = PRootLocked \/ a_pc a = PCommitLoaded \/ a_pc a = PAbortBefore ->
   nth_error (s_actors s) j = Some b -> committed b = true -> In t (writes_of b) ->
   exists e, nth_error (a_entries a) t = Some e /\ In (a_id b) (tv_ids e).
 Proof.
